@@ -200,18 +200,6 @@ def succeeds (s : Script K) : Prop :=
   (if isPrediction (effK0 s.k0) = true then predictionOk s
    else (s.traits.hasCTO = true ∨ integSmt (effK0 s.k0) = .noStiffness) ∧ integrationOk s ∧ tailOk s)
 
-theorem body_code_eq (v : Variant) (s : Script K) :
-    (body v s (st0 s)).code =
-      if s.init ≠ .ok ∨ cbRaises s then some (-1)
-      else if isPrediction (effK0 s.k0) = true then (if predictionOk s then some 1 else some (-1))
-      else if s.traits.hasCTO = false ∧ integSmt (effK0 s.k0) ≠ .noStiffness then some (-1)
-      else if integrationOk s ∧ tailOk s then none else some (-1) := by
-  rw [body_code, pre_code]
-  by_cases h1 : s.init ≠ .ok ∨ cbRaises s <;> by_cases h3 : isPrediction (effK0 s.k0) = true <;>
-    by_cases h4 : s.traits.hasCTO = false ∧ integSmt (effK0 s.k0) ≠ .noStiffness <;>
-    by_cases h5 : integrationOk s <;> by_cases h6 : predictionOk s <;> by_cases h7 : tailOk s <;>
-    simp [h1, h3, h4, h5, h6, h7]
-
 /-- the return value is `-1`, `0` or `1` -/
 theorem return_value_range (v : Variant) (s : Script K) :
     (integrate v s).ret = -1 ∨ (integrate v s).ret = 0 ∨ (integrate v s).ret = 1 := by
